@@ -91,6 +91,36 @@ def runTImpl (v : Variant) : TState → Prev → List (TOp × List PortMod) → 
     let rs := runTImpl v res.1 b1 r
     (rs.1, (res.2, verdictAfter adjAfter t res.2) :: rs.2)
 
+/-- the same under a configuration (`Cfg`: configured link timeout, `no_flood`); at `Cfg.default` this is `runOpsImpl`
+    (`stepOfC_default`) -/
+def runOpsImplC (c : Cfg) (v : Variant) : DState → Prev → List (Op × List PortMod) → DState × List (Out × String)
+  | s, _, [] => (s, [])
+  | s, b, (op, im) :: r =>
+    let b0 := match op with | .up d _ => b.clear d | _ => b
+    let b1 := Spec.applyBits b0 im
+    let adjAfter := keys (stepOfC c v s (fun a => calcTreeL a op.order) op).1.adj
+    let t := Spec.floodTree adjAfter b1
+    let res := stepOfC c v s (chooseImpl t) op
+    let rs := runOpsImplC c v res.1 b1 r
+    (rs.1, (res.2, verdictAfter adjAfter t res.2) :: rs.2)
+
+def runTImplC (c : Cfg) (v : Variant) : TState → Prev → List (TOp × List PortMod) → TState × List (Out × String)
+  | ts, _, [] => (ts, [])
+  | ts, b, (op, im) :: r =>
+    let b0 := match op with | .up d _ => b.clear d | _ => b
+    let b1 := Spec.applyBits b0 im
+    let adjAfter := keys (tstepOfC c v ts (fun a => calcTreeL a op.order) op).1.d.adj
+    let t := Spec.floodTree adjAfter b1
+    let res := tstepOfC c v ts (chooseImpl t) op
+    let rs := runTImplC c v res.1 b1 r
+    (rs.1, (res.2, verdictAfter adjAfter t res.2) :: rs.2)
+
+/-- `"cfg": {"timeout": ms, "no_flood": bool}`; absent: the defaults -/
+def cfgOfJ (j : J) : Except String (Option Cfg) := do
+  match j.get? "cfg" with
+  | none => pure none
+  | some cj => pure (some ⟨← cj.nat "timeout", ← cj.boolean "no_flood"⟩)
+
 def outVToJ (ov : Out × String) : J :=
   J.mk [("events", J.arr (ov.1.events.map fun (a, l) => J.arr [J.bool a, linkToJ l])),
         ("mods", J.arr (ov.1.mods.map modToJ)), ("errs", J.ofNat ov.1.errs), ("tree", J.str ov.2)]
@@ -177,9 +207,13 @@ def handle1 (j : J) : Except String J := do
     let v : Variant := ⟨← vj.boolean "popFirst", ← vj.boolean "skip", ← vj.boolean "visitAll"⟩
     let opsJ ← j.array "ops"
     let ops ← opsJ.mapM opOfJ
+    let cfg ← cfgOfJ j
+    if cfg.isSome && !flagSet j "impl" then throw "a configuration is only modelled for the handlers with the tree as a parameter (impl)"
     if flagSet j "impl" then
       let ims ← opsJ.mapM fun o => modsOfJ o "mods"
-      let (s, outs) := runOpsImpl v Discovery.init [] (ops.zip ims)
+      let (s, outs) := match cfg with
+        | some c => runOpsImplC c v Discovery.init [] (ops.zip ims)
+        | none => runOpsImpl v Discovery.init [] (ops.zip ims)
       return (J.mk [("outs", J.arr (outs.map outVToJ)),
                   ("adjacency", J.arr (s.adj.map fun (l, t) => J.arr [linkToJ l, J.ofNat (t - Discovery.init.now)])),
                   ("prev", J.arr (s.prev.map fun ((d, p), b) => J.arr [J.ofNat d, J.ofNat p, J.bool b]))])
@@ -193,9 +227,13 @@ def handle1 (j : J) : Except String J := do
     let v : Variant := ⟨← vj.boolean "popFirst", ← vj.boolean "skip", ← vj.boolean "visitAll"⟩
     let opsJ ← j.array "ops"
     let ops ← opsJ.mapM topOfJ
+    let cfg ← cfgOfJ j
+    if cfg.isSome && !flagSet j "impl" then throw "a configuration is only modelled for the handlers with the tree as a parameter (impl)"
     if flagSet j "impl" then
       let ims ← opsJ.mapM fun o => modsOfJ o "mods"
-      let (ts, outs) := runTImpl v Discovery.tinit [] (ops.zip ims)
+      let (ts, outs) := match cfg with
+        | some c => runTImplC c v Discovery.tinit [] (ops.zip ims)
+        | none => runTImpl v Discovery.tinit [] (ops.zip ims)
       return (J.mk [("outs", J.arr (outs.map outVToJ)),
                   ("adjacency", J.arr (ts.d.adj.map fun (l, t) => J.arr [linkToJ l, J.ofNat (t - Discovery.init.now)])),
                   ("timer", match ts.next with | some n => J.ofNat (n - Discovery.init.now) | none => J.str "stopped")])
